@@ -130,8 +130,15 @@ def check_count(ctx, fi, br, bk, rep, idxp, z, P=P):
     if t in ("itertools.repeat(self.farg)", "repeat(self.farg)"):
         ctx.ok(f"{P}.COUNT", site, "selector repeated without bound", key=bk)
         return
+    if isinstance(rep, ast.Attribute) and isinstance(rep.value, ast.Name) and rep.value.id == "self" and fi.cls is not None:
+        # a repetition prepared once on the object: read through its (single) definition in the class
+        defs = [a.value for m in fi.cls.methods.values() for a in ast.walk(m.node) if isinstance(a, ast.Assign)
+                and any(norm(x) == t for x in a.targets)]
+        if len(defs) == 1:
+            rep = defs[0]
     if not (isinstance(rep, ast.BinOp) and isinstance(rep.op, ast.Mult)):
-        raise AnalysisError(f"{P}.COUNT", site, f"unrecognised selector repetition {t}")
+        ctx.unknown(f"{P}.COUNT", site, f"unrecognised selector repetition {t}", key=bk)
+        return
     cnt = rep.right if norm(rep.left) == "[self.farg]" else rep.left
     if bk == "slice":
         c = cnt
